@@ -1,7 +1,7 @@
 # C05 — memory and db metadata stores expose the same filesystem
 PROPS["C05"] = dict(
     props_file="Properties/C05.v",
-    harnesses=[dict(cmd="stores", mod="cmdmod", model="Model.TreeStores", quick=80, thorough=5000, shard=20, coq_jobs=8,
+    harnesses=[dict(cmd="stores", mod="cmdmod", model="Model.TreeStores", quick=80, thorough=5000, shard=20, coq_jobs=8, race=300,
                     preamble="Open Scope Z_scope.",
                     require=["toc.builder-output", "toc.implicit-parent", "toc.repeated-dir", "toc.dir-after-child",
                              "toc.hardlink-to-hardlink", "toc.root-entry", "toc.respelled-name", "toc.empty-xattr",
@@ -11,8 +11,9 @@ PROPS["C05"] = dict(
                              "layers.shared-db", "layers.bad-neighbour", "op.prereader.callbacks",
                              "sched.coalesce.doubleclose", "sched.coalesce.raw", "sched.batch-failure-injected.root",
                              "sched.batch-failure-injected.nodes", "sched.batch-failure-injected.nodes-streams",
-                             "sched.batch-failure-injected.close"])],
-    rule="a random tar (dirs, files of 0..4 chunks, symlinks, hardlinks incl. chains, devices, fifos, xattrs incl. empty values, "
+                             "sched.batch-failure-injected.close", "format.gzip", "format.zstd", "format.exttoc"])],
+    rule="formats: gzip eStargz (60%), zstd:chunked (20%, TOC manifest + footer rebuilt by hand so that mutated TOCs and trailing bytes are possible), "
+         "external-TOC gzip eStargz (20%, the mutated TOC is handed to the decompressor's provider); a random tar (dirs, files of 0..4 chunks, symlinks, hardlinks incl. chains, devices, fifos, xattrs incl. empty values, "
          "name prefixes ./ / ../) is converted by the real estargz.Writer (gzip level, ChunkSize 16..300 or default, MinChunkSize "
          "0..5000 = inner-offset streams); its TOC is decoded and mutated (0..4 ops: drop a dir entry = implicit parent, repeat a dir "
          "entry with other attributes, move an entry, respell names, add hardlinks to hardlinks, explicit root entry, drop digests, "
@@ -37,23 +38,26 @@ PROPS["C05"] = dict(
         "background initialisation of the db reader: only its before/after states are modelled (GetAttr(root) before = F13)",
         "os.FileMode.IsRegular is modelled as mode < 2^24 (true for every mode TOCEntry.Stat().Mode() can produce)",
     ],
-    level_text="Coq theorems for all inputs: (1) tree agreement: for every 'simple' TOC (known types, distinct cleaned names in any spelling, "
-               "every entry at top level or below an earlier entry, single-chunk files; any size, depth, attributes, xattrs) both stores accept and "
-               "their complete views are equal (simulation proof between the two-pass and the streaming interpreter); (2) the db attribute codec is the "
-               "identity on the attributes both stores derive with the same function (incl. empty xattrs, NumLink 0=1), and PutVarint/Varint round-trips "
+    level_text="Coq theorems for all inputs: (1) tree agreement, proved by a simulation between the two-pass (memory) and the streaming (db) interpreter "
+               "whose relation carries an abstract, growing map from memory node indices to db node ids: for every TOC of the explicit boolean class "
+               "rooted_tocb (known non-link types, distinct cleaned names in any spelling, an entry whose name is an ancestor of another's precedes it, "
+               "single-chunk files; parents may be IMPLICIT at any depth, the first entry may be an EXPLICIT ROOT entry; any size, attributes, xattrs) "
+               "both stores accept and their complete views are equal (C05_stores_agree_rooted; implicit_tocb and the older simple class are subclasses); "
+               "(2) the db attribute codec is the identity on the attributes both stores derive with the same function, and PutVarint/Varint round-trips "
                "every int64; (3) for every file whose chunks tile it, the chunk table the db store recomputes from neighbouring offsets equals the TOC's "
-               "and ChunkEntryForOffset agrees at every offset >= 0; (4) TOC digests agree for any decoder read-ahead; (5) both stores accept every "
-               "hardlink-free TOC; (6) for every history of open/close/query on other layers of one database a live layer's view is unchanged and open "
-               "never reuses a live id; (7) name cleaning is a normal form. The full statement over all conforming TOCs is refuted on the faithful models "
-               "by five classes (one vm_compute witness each, each reproduced on the real code as a known finding). Tree equality for conforming TOCs "
-               "with implicit parents, repeated directories, explicit root entry, hardlinks, or multi-chunk files inside the walk is NOT proved "
+               "and ChunkEntryForOffset agrees at every offset >= 0 (digest: chunkDigest, else the entry's digest, in both stores since fix-10); "
+               "(4) TOC digests agree for any decoder read-ahead; (5) both stores accept every hardlink-free TOC; (6) for every history of "
+               "open/close/query on other layers of one database a live layer's view is unchanged and open never reuses a live id; (7) name cleaning is a "
+               "normal form. The full statement over all conforming TOCs is refuted on the faithful models by three remaining classes (forward hardlink, "
+               "chunk first, directory entry after a child: one vm_compute witness each, reproduced on the real code as known findings) plus the early "
+               "root attr. Tree equality for conforming TOCs with hardlinks, repeated directory entries or multi-chunk files inside the walk is NOT proved "
                "(covered per case by the correspondence check + store-vs-store oracle).",
     level_note="Both interpreters (estargz initFields + metadata/memory; db initNodes/writeAttr/readAttr/readChunks) are hand-modelled in "
                "coq/Model/TreeStores.v and evaluated inside Coq on every generated TOC against the views observed on the real stores. "
-               "Eight minimal repairs were made to /repo (patches/C05-fix-1..8), the model follows the repaired code.",
+               "Eleven minimal repairs were made to /repo (patches/C05-fix-1..11), the model follows the repaired code.",
     technique="Coq proofs (induction over chunk tables / histories / TOCs) + vm_compute counterexamples; differential correspondence of two "
               "executable models against the two real stores; store-vs-store oracle on the real code",
     trusted=["metadata/memory + estargz.initFields and cmd/containerd-stargz-grpc/db are modelled by hand in coq/Model/TreeStores.v; tie = complete "
              "canonical view (path, attrs, xattrs, link count, offset, hardlink identity, openable, ChunkEntryForOffset probes) per store",
-             "tree equality of the two models outside the 'simple' class (implicit parents, repeated dirs, root entry, hardlinks) is checked per case, not proved"],
+             "tree equality of the two models outside rooted_tocb (hardlinks, repeated dirs, multi-chunk files in the walk, out-of-order entries) is checked per case, not proved"],
 )
